@@ -218,3 +218,8 @@ package set
 //@   ensures {C16} answers: len(params.Command) >= 3 && onset(params, tkey(params)) ==> result1 == nil
 //@   ensures {C13,C16} pure: tpure(params)
 //@   ensures {C13,C16} content: tsame(params, tkey(params))
+
+// SUNION key [key ...]: a reader; the keyspace is left as it was (apart from collecting expired keys).
+//@ func handleSUNION props C16,C12,C13
+//@   requires generic.henv(params)
+//@   ensures {C13,C16} pure: tpure(params)
